@@ -225,6 +225,9 @@ Theorem b58_encode_empty : b58_encode [] = Err EValue.
 Proof. reflexivity. Qed.
 
 (* ------------------------------------------------------------------ decode then encode *)
+Lemma Forall_skipn_lt {A} (P : A -> Prop) ds : Forall P ds -> forall k, Forall P (skipn k ds).
+Proof. induction 1; intros [|k]; simpl; try constructor; auto. Qed.
+
 (* shape of every valid text *)
 Lemma text_split t ds : t <> [] -> chars_to_digits t = Some ds ->
   exists k ds', t = repeat one_char k ++ map char_of_digit ds' /\ Forall (fun d => d < 58) ds' /\
@@ -239,7 +242,7 @@ Proof.
   assert (Hsk : skipn k t = map char_of_digit (skipn k ds)).
   { rewrite <- Hm. clear. revert ds. induction k; intros ds; [reflexivity|]. destruct ds; [reflexivity|]. simpl. apply IHk. }
   split; [rewrite <- Hsk; exact Hs|]. split.
-  { clear -Hf. revert k. induction Hf; intros [|k]; simpl; try constructor; auto. }
+  { apply Forall_skipn_lt. exact Hf. }
   split.
   { assert (length t = (k + length (skipn k ds))%nat).
     { rewrite Hs at 1. rewrite app_length, repeat_length, Hsk, map_length. reflexivity. }
